@@ -91,6 +91,13 @@ func runC09(c *Ctx, i int, r *rand.Rand) {
 	}
 	s.Script.FailOnBad = true
 	s.Script.Err, s.Script.Bare = nil, nil
+	if s.Cfg.Limit == 0 || s.Cfg.Limit > 4<<20 {
+		// corrupted and over-stated lengths announce up to 4 GiB, and under the default limit the transcoder may
+		// reserve what is announced: a finite limit keeps the harness's own memory bounded (C10 judges reservations)
+		cfg := *s.Cfg
+		cfg.Limit = 4 << 20
+		s.Cfg = &cfg
+	}
 	if s.Script.Comp == "zz" {
 		s.Script.Comp = "gzip"
 	}
